@@ -127,6 +127,33 @@ def dom_cfloat(ex, st, v):
         return ("reject-any", type(e).__name__)
 
 
+def dom_trait_float(ex, st, v):
+    """Trait(float) / TraitCoerceType(float), as documented: a float is stored as it is; an int is COERCED (widening only)"""
+    if pymodel.m_isinstance(v, float):
+        return ACCEPT, v
+    if pymodel.m_isinstance(v, int):
+        try:
+            return ACCEPT, pymodel.m_float(v)
+        except symx.PathAbort:
+            raise
+        except Exception as e:
+            return RAISE, type(e).__name__
+    return (REJECT,)
+
+
+def dom_trait_complex(ex, st, v):
+    if pymodel.m_isinstance(v, complex):
+        return ACCEPT, v
+    if pymodel.m_isinstance(v, (int, float)):
+        try:
+            return ACCEPT, pymodel.m_complex(v)
+        except symx.PathAbort:
+            raise
+        except Exception as e:
+            return RAISE, type(e).__name__
+    return (REJECT,)
+
+
 def in_range(ex, x, lo, hi, xl, xh, isfloat):
     """documented range criterion as a decision on the (possibly symbolic) value"""
     if isfloat:
@@ -461,6 +488,9 @@ CONFIGS = {
     # prefix uniqueness, decided for EVERY string (z3 String, length <= 8)
     "PrefixList": (mk_prefix("list"), dom_prefix(PREFIX_VALUES), ["symstr", "strsub", "none", "int", "bytes", "object"]),
     "PrefixMap": (mk_prefix("map"), dom_prefix(list(PREFIX_MAP)), ["symstr", "strsub", "none", "int", "object"]),
+    # Trait(<type>): the value itself, or the documented widening coercion of it
+    "TraitFloatType": (simple(lambda: Trait(float)), dom_trait_float, ["none", "bool", "int64", "intsub64", "float", "floatsub", "complex", "str", "object"]),
+    "TraitComplexType": (simple(lambda: Trait(complex)), dom_trait_complex, ["none", "bool", "int64", "float", "floatsub", "complex", "complexsub", "str"]),
     "RangeFloat": (mk_range_float, dom_range_float, FLOATISH + ["str", "object"]),
     "RangeFloatConst": (mk_range_float_const, dom_range_float, INTISH),
     "RangeInt": (mk_range_int, dom_range_int, ["none", "bool", "int", "intsub", "float", "indexobj", "npint", "str", "object"]),
